@@ -887,3 +887,52 @@ def passes_before(flow, first, later, assume, stop=()):
                         return True
                 return False
     return False
+
+
+def three_valued(e, atoms):
+    """truth of a test under the partial assignment `atoms` (normalised text -> bool): True, False or None (open)"""
+    key = str(norm(e))
+    if key in atoms:
+        return atoms[key]
+    if isinstance(e, ast.Constant):
+        return bool(e.value)
+    if isinstance(e, ast.UnaryOp) and isinstance(e.op, ast.Not):
+        v = three_valued(e.operand, atoms)
+        return None if v is None else not v
+    if isinstance(e, ast.BoolOp):
+        vals = [three_valued(v, atoms) for v in e.values]
+        if isinstance(e.op, ast.And):
+            return False if any(v is False for v in vals) else (True if all(v is True for v in vals) else None)
+        return True if any(v is True for v in vals) else (False if all(v is False for v in vals) else None)
+    return None
+
+
+def reach_under(flow, atoms, stop=()):
+    """CFG nodes reachable from the entry when every `if`/`while` test that `atoms` decides takes only the decided branch
+    (tests are resolved through single-definition locals first).  An over-approximation of the executions consistent with
+    the assumption: open tests take both branches, exception edges are all kept."""
+    cfg = flow.cfg
+    seen = set()
+    todo = [ENTRY]
+    while todo:
+        a = todo.pop()
+        st = cfg.stmt_of.get(a)
+        decided = None
+        if isinstance(st, (ast.If, ast.While)):
+            t = st.test
+            try:
+                t = flow.resolve(t, at=st, stop=stop)
+            except AnalysisError:
+                pass
+            decided = three_valued(t, atoms)
+            if decided is None:
+                decided = three_valued(st.test, atoms)
+        for lab, b in cfg.succ.get(a, []):
+            if decided is True and lab == "F":
+                continue
+            if decided is False and lab == "T":
+                continue
+            if b not in seen:
+                seen.add(b)
+                todo.append(b)
+    return seen
